@@ -17,6 +17,15 @@
     sound_target_fails the same statement for the table AS EXTRACTED is false: C04-a
                        (`impl BumpAllocatorCoreScope<'a> for &'a mut Bump`) admits a well-typed program
                        that reads a value after `reset` — the Lean image of the known finding
+    convs_tied         every extracted conversion between lifetime-carrying values (`From`, the accessors of Stats / Chunk /
+                       AnyStats / AnyChunk, iterator items, `AsRef`/`Borrow`/`Deref`, `from_parts`) names only lifetimes of
+                       its input on its output (part of `sigOK`; broken by `impl From<Stats<'_,…>> for AnyStats<'_>`)
+    conversion_keeps_region / converted_invalidated_with_source
+                       with that condition the output of a conversion carries exactly the region of its source, so
+                       whatever invalidates the source (the end of its arena's epoch) invalidates the output;
+                       `sound` covers the `vconv` / `join` statements
+    untied_from_unsound / untied_from_parts_unsound
+                       without it (one fresh output lifetime) a well-typed program reads freed memory
     conversions_do_not_weaken   a settings conversion that passes the extracted const assertions keeps the
                        direction, does not lower the minimum alignment on a borrow or on a scope, does not
                        upgrade guaranteed-allocated and does not change claimable on a borrow — for all settings
@@ -94,6 +103,77 @@ theorem sound_target_fails : ¬ sound_target := by
 /-- without that implementor the same program is rejected -/
 example : verdict table ⟨true, true⟩ c04a_witness = some (2, .notApplicable) := by decide
 
+/-! ### conversions between lifetime-carrying values -/
+
+/-- every extracted conversion names only lifetimes of its input on its output -/
+theorem convs_tied : convsAdequate Gen.Sigs.table = true := by decide
+
+/-- for an adequate table, `let x = Out::from(v)` (an accessor, an iterator item) gives `x` exactly the region of `v` -/
+theorem conversion_keeps_region (t : Table) (hok : sigOK t = true) (fl : Flags) (Γ Γ' : SEnv) (x v : Var)
+    (input name : String) (hc : checkStmt t fl Γ (.vconv x v input name) = .ok Γ') :
+    ∃ e ∈ Γ.ents, e.var = v ∧ e.valid = true ∧
+      Γ'.ents = ⟨x, .val, .own, e.self, e.self, true, Γ.depth⟩ :: Γ.ents := by
+  simp only [checkStmt, checkVconv] at hc
+  cases hlc : t.lookupConv input name with
+  | none => rw [hlc] at hc; cases hc
+  | some c =>
+    rw [hlc] at hc; simp only at hc
+    split at hc
+    · cases hc
+    · cases hl : Γ.lookupValid v with
+      | error r => rw [hl] at hc; cases hc
+      | ok e =>
+        rw [hl] at hc; simp only at hc
+        split at hc
+        · cases hc
+        · rw [convRegion_tied (sigOK_conv hok hlc)] at hc
+          rcases lookupValid_ok hl with ⟨he, hvar, hv⟩
+          rcases declare_ok hc with ⟨_, rfl⟩
+          exact ⟨e, he, hvar, hv, rfl⟩
+
+/-- … hence every invalidation (a conflicting use, a move, a drop of anything the source borrows: the only ways an
+    epoch can end) that hits the source hits the converted value -/
+theorem converted_invalidated_with_source (p : Loan → Bool) (e : Entry) (x : Var) (d : Nat) (hv : e.valid = true) :
+    (kill1 p e).valid = (kill1 p ⟨x, .val, .own, e.self, e.self, true, d⟩).valid := by
+  unfold kill1
+  by_cases h : e.self.any p = true
+  · simp [h]
+  · simp [h, hv]
+
+/-- the extracted table with the `From<Stats> for AnyStats` header as it was before the fix (two elided lifetimes) -/
+def untiedFrom : Table :=
+  { table with valueConvs := [⟨.from_, "Stats", "AnyStats", "AnyStats", [.fresh], "stats/any.rs (before 19ca7c2)"⟩] }
+
+/-- `let s = b.stats(); let a = AnyStats::from(s); drop(b); a.count()` -/
+def anystats_witness : List Stmt :=
+  [.newBump 0, .call 1 0 .alloc "Bump" "stats", .vconv 2 1 "Stats" "AnyStats", .drop 0, .use 2]
+
+theorem untied_from_unsound :
+    sigOK untiedFrom = false ∧ verdict untiedFrom ⟨true, true⟩ anystats_witness = none ∧
+    faultOf ⟨true, true⟩ anystats_witness = some (0, .uaf) := by
+  refine ⟨?_, ?_, ?_⟩ <;> decide
+
+/-- with the table as extracted the same program is rejected: `a` is invalidated by the drop of `b` -/
+example : verdict table ⟨true, true⟩ anystats_witness = some (0, .dead) := by decide
+
+/-- the same for `BumpVec::from_parts` taking a `FixedBumpVec` of an unrelated lifetime:
+    `g = b.scope_guard(); s = g.scope(); f = s.alloc(..) (fixed vec); v = BumpVec::from_parts(f, &c); x = v.into_slice();
+     drop(g); use(x)` -/
+def untiedFromParts : Table :=
+  { table with valueConvs := [⟨.ctor, "FixedBumpVec", "BumpVec::from_parts", "BumpVec", [.fresh], "bump_vec.rs (seed C04-c)"⟩] }
+
+def from_parts_witness : List Stmt :=
+  [.newBump 0, .newBump 1, .call 2 0 .mkGuard "Bump" "scope_guard", .call 3 2 .guardScope "BumpScopeGuard" "scope",
+   .call 4 3 .alloc "BumpScope" "alloc_slice_copy", .coll 5 1 .shr, .call 6 5 .alloc "BumpVec" "into_slice",
+   .join 6 4 "FixedBumpVec" "BumpVec::from_parts", .drop 2, .use 6]
+
+theorem untied_from_parts_unsound :
+    sigOK untiedFromParts = false ∧ verdict untiedFromParts ⟨true, true⟩ from_parts_witness = none ∧
+    faultOf ⟨true, true⟩ from_parts_witness = some (0, .uaf) := by
+  refine ⟨?_, ?_, ?_⟩ <;> decide
+
+example : verdict table ⟨true, true⟩ from_parts_witness = some (0, .dead) := by decide
+
 /-- **Settings conversions.**  For the extracted const assertions and ALL settings (any minimum alignment): a
     conversion that compiles does not weaken a guarantee (`required`: direction kept; minimum alignment not lowered
     on a borrow / on a scope taken by value; guaranteed-allocated not upgraded and claimable unchanged on a borrow). -/
@@ -103,7 +183,7 @@ theorem conversions_do_not_weaken (owner name : String) (old new : Settings)
   have h : settingsOK table = true := by
     have := sigs_ok
     unfold sigOK at this; simp only [Bool.and_eq_true] at this
-    exact this.1.2
+    exact this.1.1.2
   exact conv_sound h hc
 
 /-! ### non-vacuity: programs the checker accepts / rejects with the extracted table -/
